@@ -224,17 +224,21 @@ _EXTRA = {
     "C01": " Object histories are part of the workload: the adiabatic value is read (twice) and the isothermal results must be bit-identical afterwards, "
            "and every third case of a worker re-uses the (T,V) grid, q-point/atom counts, weights and (every second time) strain fractions of the previous case with a new spectrum "
            "(state kept between calculations); the calculator object itself is re-used with a shifted temperature grid.",
-    "C02": " Every third case re-uses the (T,V) grid, array shapes, weights and (every second time) strain fractions of the previous case with a new spectrum (module-level memoisation would show).",
-    "C04": " Axis relabelling is checked on the isothermal and on the adiabatic tensor; the de-duplication window is detected from every parameter set the scheduler created.",
+    "C02": " Every third case re-uses the (T,V) grid, array shapes, weights and (every second time) strain fractions of the previous case with a new spectrum (module-level memoisation would show); "
+           "every fifth case has one negative strain fraction (an axis that lengthens under compression), so that off-diagonal gaps of both signs are judged.",
+    "C03": " Rotated strain fractions are requested for float, integer-typed (whole-number proportions), non-contiguous and read-only strain arrays.",
+    "C04": " Strain-field classes include series that cross at exactly one grid volume and a field that is isotropic at one volume only. Axis relabelling is checked on the isothermal and on the adiabatic tensor; the de-duplication window is detected from every parameter set the scheduler created.",
     "C05": " Static tables are tabulated on their own volume sets (same, shifted, different count); input files carry user-chosen names / sub-directories and the settings are "
            "addressed by absolute and relative paths; a quarter of the data sets are run a second time in the same process under another volume_ratio and T grid and judged again; "
-           "a generic-data class uses the oracle's own least-squares polynomial as reference; the shipped akimotoite example is judged by the second reference with its static part isolated as M(2c)-M(c).",
-    "C06": " Reads served from a memo (no conversion event) are still judged by value; after write_output (including the p and v tables) P(T,V), V(T,P), the identity and one converted modulus are re-checked.",
-    "C07": " The stiffness field is injected into a real Calculator object (no __init__), and for every eighth field all volume-base tables are written and the judge runs again.",
+           "a generic-data class uses the oracle's own least-squares polynomial as reference; the shipped akimotoite example is judged by the second reference with its static part isolated as M(2c)-M(c). Total minus static pressure is judged against the oracle's own "
+           "-d/dV of the configured-order finite-strain fit of F_vib(T,V_i); E(V) carries 4th/5th-order finite-strain terms in 40 % of the data sets and qha.settings.order runs over 2-5.",
+    "C06": " Reads served from a memo (no conversion event) are still judged by value; after write_output (including the p and v tables) P(T,V), V(T,P), the identity and one converted modulus are re-checked. Half of the data sets have E(V) that no cubic reproduces, the EoS order runs over 2-5 and every sixth data set is a static-only run.",
+    "C07": " The stiffness field is injected into a real Calculator object (no __init__), and for every eighth field all volume-base tables are written and the judge runs again; the object carries the effective configuration of a settings file, "
+           "with the symmetry options (drop_atol, residual_atol, ignore flags) at their defaults or at other admissible values.",
     "C08": " Tables carry default, offset, shuffled, volume-valued and string row indexes, and each case fills the same supplied set a second time with the columns in another order.",
     "C09": " Row-index variants and the command-line flags --ignore-rank / --ignore-residuals are part of the presentation and refusal sweeps; drop-tolerance tables include components that cross the tolerance from one volume to the next (kept, entries intact).",
     "C11": " Sampled-volume counts 4-12 including 7, 9, 10; all cases of one (method, count, order) run one after the other in one process on different volume sets, each exact case followed by a volume set with the same end volumes and count but other interior volumes.",
-    "C12": " Every third configuration is followed, in the same process and on the same data, by a run on a shifted temperature grid of identical shape; c^S(0) = c^T(0) and the continuity of c^S towards T = 0 are judged as well.",
+    "C12": " Every third configuration is followed, in the same process and on the same data, by a run on a shifted temperature grid of identical shape; c^S(0) = c^T(0) and the continuity of c^S towards T = 0 are judged as well; a large-grid class (1000-2000 temperature rows from T=0 in steps of 0.25-1 K, 40-280 MB per (T,V,q,mode) array) is part of both tiers.",
     "C13": " Two thirds of the data sets carry generic (non power-law) spectra so that the choice of interpolation nodes matters; averages are compared where the stiffness is well "
            "conditioned and adiabatic values where C_V is not vanishing.",
     "C14": " Working directories always contain entries named like the run's own crystal system and like its configured input files; in-process histories include dict-form output "
